@@ -65,7 +65,9 @@ def match_known(known, prop, h, chk):
             continue
         if "harness" in k and not h["harness"].endswith(k["harness"]):
             continue
-        if k.get("check") and k["check"] not in chk["description"]:
+        if k.get("check") and k["check"] not in chk["description"] and k["check"] not in (chk.get("function") or ""):
+            continue
+        if k.get("checks") and not any(c in chk["description"] for c in k["checks"]):
             continue
         if k.get("function") and k["function"] not in (chk.get("function") or ""):
             continue
@@ -75,7 +77,7 @@ def match_known(known, prop, h, chk):
 
 def select(meta, prop, tier, seed, known):
     hs = [h for h in meta["harnesses"] if h["property"] == prop]
-    if tier == "thorough" or len(hs) <= QUICK_N.get(prop, 10):
+    if tier == "thorough" or len(hs) <= QUICK_N.get(prop, 10) or os.environ.get("VERIF_ALL"):
         return hs, len(hs)
     rnd = random.Random(seed * 1000003 + int(prop[1:]))
     # stratify by (module, kind)
@@ -269,7 +271,7 @@ def main():
         return 2
     res, tools = parse_results(out_json)
 
-    inconclusive, known_hits, candidates, passed = [], [], [], []
+    inconclusive, known_hits, candidates, passed, solver_only = [], [], [], [], []
     solver_s = symex_s = 0.0
     n_checks = 0
     functions = set()
@@ -288,7 +290,16 @@ def main():
             continue
         if r["status"] == "Success":
             bad_cov = [c for c in r["covers"] if c[1] not in ("Satisfied", "Covered")]
-            if bad_cov:
+            oblig = [c for c in bad_cov if "OBLIGATION:" in c[0]]
+            if oblig:
+                # existential obligation (a witness must exist) proved unsatisfiable by the solver
+                k = match_known(known, prop, h, {"description": oblig[0][0], "function": ""})
+                if k:
+                    known_hits.append((hn, {"description": oblig[0][0]}, k))
+                    passed.append(hn)
+                else:
+                    solver_only.append((hn, oblig[0][0]))
+            elif bad_cov:
                 inconclusive.append((hn, "vacuous: cover %r not satisfiable" % (bad_cov[0][0],)))
             else:
                 passed.append(hn)
@@ -336,6 +347,14 @@ def main():
                 violations.append((hn, t["check"], path, dev, rel))
         if not any_rep:
             inconclusive.append((hn, "counterexample did not reproduce natively (encoding or stub suspect): %s" % "; ".join(c["description"] for c in checks)))
+
+    for hn, desc in solver_only:
+        path = os.path.join(replay_dir, "%s__%s.json" % (hn.split("::")[-1], hashlib.sha1(desc.encode()).hexdigest()[:8]))
+        json.dump({"property": prop, "harness": hn, "check": desc, "solver_only": True,
+                   "note": "existential obligation: the solver proved that NO execution (no sequence of draws) satisfies the cover; "
+                           "there is no concrete witness to run natively - replay re-runs the solver query",
+                   "tier": tier, "seed": seed}, open(path, "w"), indent=1)
+        violations.append((hn, desc, path, "solver-only", "solver-only"))
 
     wall = time.time() - t0
     samples = []
@@ -390,6 +409,18 @@ def main():
 
 def replay_file(path, prop, run_dir, crate, log, tier, seed):
     rp = json.load(open(path))
+    if rp.get("solver_only"):
+        rc, out = sh([sys.executable, os.path.join(HERE, "gen.py"), crate, rp.get("tier", tier), str(rp.get("seed", seed))], log=log)
+        out_json = os.path.join(run_dir, "kani_replay.json")
+        run_kani(crate, os.path.join(run_dir, "target"), [rp["harness"]], 1, TIMEOUT[tier], log, out_json)
+        res, _ = parse_results(out_json)
+        r = res.get(rp["harness"])
+        bad = r and [c for c in r["covers"] if "OBLIGATION:" in c[0] and c[1] not in ("Satisfied", "Covered")]
+        print("replay %s: obligation %s" % (rp["harness"], "still unsatisfiable" if bad else "satisfiable"))
+        if bad:
+            print("VIOLATION property=%s replay=%s" % (prop, path))
+            return 1
+        return 0
     rc, out = sh([sys.executable, os.path.join(HERE, "gen.py"), crate, rp.get("tier", tier), str(rp.get("seed", seed))], log=log)
     if rc != 0:
         print(out)
